@@ -712,7 +712,10 @@ pub fn rule_nested_focus(with_neg: bool) -> BoxedStrategy<RuleSpec> {
     });
     (
         prop::sample::select(vec!["o1", "objs"]),
-        prop::collection::vec((inner_block, prop::bool::weighted(0.2), prop::bool::weighted(0.15)), 3..=6),
+        prop::collection::vec(
+            (inner_block, prop::bool::weighted(0.2), prop_oneof![15 => Just(0u8), 2 => Just(1u8), 3 => Just(2u8)]),
+            3..=6,
+        ),
         shape(false, with_neg, false),
         0u8..6,
     )
@@ -725,10 +728,18 @@ pub fn rule_nested_focus(with_neg: bool) -> BoxedStrategy<RuleSpec> {
                     let nested = Block(vec![Entry { key: KeySpec::plain(holder), val: ValSpec::Block(b.clone()) }]);
                     if as_seq {
                         Body::Seq(vec![nested.clone(), nested])
-                    } else if extra {
+                    } else if extra == 1 {
                         // a second, flat entry next to the nested block
                         let mut n = nested;
                         n.0.push(Entry { key: KeySpec::plain("f1"), val: ValSpec::Str("a".into()) });
+                        Body::Map(n)
+                    } else if extra == 2 && b.0.iter().any(|e| e.key.modifier == KMod::None) {
+                        // a dotted sibling that reaches into the holder (`o1.x: a` next to `o1: {..}`):
+                        // on an array of objects the dotted key is missing while the block ranges over
+                        // the elements
+                        let mut n = nested;
+                        let e = b.0.iter().rev().find(|e| e.key.modifier == KMod::None).unwrap();
+                        n.0.push(Entry { key: KeySpec::plain(&format!("{holder}.{}", e.key.field)), val: e.val.clone() });
                         Body::Map(n)
                     } else {
                         Body::Map(nested)
